@@ -14,6 +14,17 @@ from symx import core
 from symx.core import Explorer, SymInt, lift, ubv
 from symx.symsim import SymSim, GROUP_NAMES, _ite_merge
 
+REPLAY_ELAB = '''
+sys.path.insert(0, '/verif')
+import warnings; warnings.filterwarnings('ignore')
+from corpus import ff_designs as FD
+from vlib.ffreplay import apply_group
+try:
+  top = FD.DESIGNS[%(name)r](); apply_group(top, %(group)r)
+except Exception as e:
+  reproduced(f"ff design {%(name)r} under pass group {%(group)r}: a legal design is rejected: {type(e).__name__}: {str(e)[:200]}")
+'''
+
 REPLAY_EDGE = '''
 sys.path.insert(0, '/verif')
 from vlib.ffreplay import edge_check
@@ -85,7 +96,14 @@ def item_edge(it):
   cover.start()
   name, group = it['design'], it['group']
   res = Result(f"edge/{name}/{group}")
-  sim = SymSim(make(name), group=group)
+  try:
+    sim = SymSim(make(name), group=group)
+  except core.Unsupported: raise
+  except Exception as e:       # the corpus designs are legal: one that cannot be elaborated / scheduled is a violation
+    res['obligations'] += 1
+    res['violations'].append(dict(key=f"ff-edge {name}: cannot be simulated", what=f"{res['name']}: a legal sequential design is rejected: {type(e).__name__}: {str(e)[:160]}",
+                                  replay=REPLAY_ELAB % dict(name=name, group=group)))
+    return res.r
   top = sim.top
   ff_order = [blkkey(top, f) for f in top.get_all_update_ff()]     # the (address-dependent) iteration order this run saw
   ffs = sorted(top.get_all_update_ff(), key=lambda f: blkkey(top, f))
